@@ -145,7 +145,7 @@ func (fx *FuncCtx) recInfoFor(env *specEnv, sp *SpecFunc) *recInfo {
 			es := fx.elemSort(f.elem)
 			f.rowPat = Select(m, rid, ArraySort(SInt, es)).S
 			binds[p] = sval{SliceV{Rid: rid, Off: off, Len: ln, Cap: cp, Elem: f.elem}, pt}
-			argSorts = append(argSorts, ArraySort(SInt, es), SInt, SInt)
+			argSorts = append(argSorts, ArraySort(SInt, es), SInt)
 		} else {
 			f.sort = scalarSort(pt)
 			c := fx.declConst("rf_"+smtName(sp.Name)+"_"+smtName(p), f.sort)
@@ -198,6 +198,11 @@ func (fx *FuncCtx) recInfoFor(env *specEnv, sp *SpecFunc) *recInfo {
 		}
 		ri.body = bt.S
 		ri.measure = fx.specTerm(c, sp.Decreases).S
+		for _, f := range ri.formals {
+			if f.isSlice && (replaceSym(ri.body, f.ln, "") != ri.body || replaceSym(ri.body, f.cp, "") != ri.body || replaceSym(ri.measure, f.ln, "") != ri.measure) {
+				fx.unsupportedf("spec rec %s: len/cap of slice parameter %s is not available in a recursive spec (pass the length as a parameter)", sp.Name, f.name)
+			}
+		}
 		for i := range ri.formals {
 			f := &ri.formals[i]
 			if !f.isSlice {
@@ -226,7 +231,7 @@ func (ri *recInfo) formalArgs() []string {
 	var out []string
 	for _, f := range ri.formals {
 		if f.isSlice {
-			out = append(out, f.rowPat, f.off, f.ln)
+			out = append(out, f.rowPat, f.off)
 		} else {
 			out = append(out, f.scalar)
 		}
@@ -236,39 +241,21 @@ func (ri *recInfo) formalArgs() []string {
 
 // inst substitutes actual flattened arguments for the formals in a template.
 func (ri *recInfo) inst(tmpl string, args []string) string {
-	k := 0
 	s := tmpl
-	// rows first (compound patterns), then symbols
+	k := 0
+	// rows first (compound patterns), then symbols; placeholders avoid re-substitution
 	for _, f := range ri.formals {
 		if f.isSlice {
-			s = strings.ReplaceAll(s, f.rowPat, "\x00row"+fmt.Sprint(k)+"\x00")
-			k += 3
-		} else {
-			k++
-		}
-	}
-	k = 0
-	for _, f := range ri.formals {
-		if f.isSlice {
+			s = strings.ReplaceAll(s, f.rowPat, "\x00a"+fmt.Sprint(k)+"\x00")
 			s = replaceSym(s, f.off, "\x00a"+fmt.Sprint(k+1)+"\x00")
-			s = replaceSym(s, f.ln, "\x00a"+fmt.Sprint(k+2)+"\x00")
-			k += 3
+			k += 2
 		} else {
 			s = replaceSym(s, f.scalar, "\x00a"+fmt.Sprint(k)+"\x00")
 			k++
 		}
 	}
-	k = 0
-	for _, f := range ri.formals {
-		if f.isSlice {
-			s = strings.ReplaceAll(s, "\x00row"+fmt.Sprint(k)+"\x00", args[k])
-			s = strings.ReplaceAll(s, "\x00a"+fmt.Sprint(k+1)+"\x00", args[k+1])
-			s = strings.ReplaceAll(s, "\x00a"+fmt.Sprint(k+2)+"\x00", args[k+2])
-			k += 3
-		} else {
-			s = strings.ReplaceAll(s, "\x00a"+fmt.Sprint(k)+"\x00", args[k])
-			k++
-		}
+	for i := range args {
+		s = strings.ReplaceAll(s, "\x00a"+fmt.Sprint(i)+"\x00", args[i])
 	}
 	return s
 }
@@ -299,16 +286,16 @@ func (fx *FuncCtx) recWellFormed(ri *recInfo) {
 		var incl []Term
 		for _, f := range ri.formals {
 			if f.isSlice {
-				if c.args[k] != f.rowPat || c.args[k+1] != f.off || c.args[k+2] != f.ln {
+				if c.args[k] != f.rowPat || c.args[k+1] != f.off {
 					fx.unsupportedf("spec rec %s: a recursive call must pass slice parameter %s unchanged", ri.sp.Name, f.name)
 				}
 				if f.lo == "" {
-					k += 3
+					k += 2
 					continue
 				}
 				lo2, hi2 := Term{ri.inst(f.lo, c.args), SInt}, Term{ri.inst(f.hi, c.args), SInt}
 				incl = append(incl, Or(Ge(lo2, hi2), And(Le(Term{f.lo, SInt}, lo2), Le(hi2, Term{f.hi, SInt}))))
-				k += 3
+				k += 2
 			} else {
 				k++
 			}
@@ -344,7 +331,7 @@ func (fx *FuncCtx) applyRecSpec(env *specEnv, sp *SpecFunc, x *ast.CallExpr) sva
 				// inside a template: the formal slice itself
 				es := fx.elemSort(sv.Elem)
 				m := fx.heapGet(env.cur, memName(sv.Elem), fx.memSort(sv.Elem))
-				args = append(args, Select(m, sv.Rid, ArraySort(SInt, es)).S, sv.Off.S, sv.Len.S)
+				args = append(args, Select(m, sv.Rid, ArraySort(SInt, es)).S, sv.Off.S)
 				continue
 			}
 			es := fx.elemSort(sv.Elem)
@@ -353,7 +340,7 @@ func (fx *FuncCtx) applyRecSpec(env *specEnv, sp *SpecFunc, x *ast.CallExpr) sva
 				st = fx.entry
 			}
 			m := fx.heapGet(st, memName(sv.Elem), fx.memSort(sv.Elem))
-			args = append(args, Select(m, sv.Rid, ArraySort(SInt, es)).S, sv.Off.S, sv.Len.S)
+			args = append(args, Select(m, sv.Rid, ArraySort(SInt, es)).S, sv.Off.S)
 		} else {
 			t, ok := unwrapScalar(a.v)
 			if !ok {
@@ -371,9 +358,11 @@ func (fx *FuncCtx) applyRecSpec(env *specEnv, sp *SpecFunc, x *ast.CallExpr) sva
 	if fx.recBuilding != nil {
 		if fx.recBuilding == ri {
 			ri.calls = append(ri.calls, recCall{guard: And(env.guards...).S, args: args})
-		} else {
-			fx.unsupportedf("spec rec %s: calls to other recursive specs inside a recursive spec are not supported", sp.Name)
+		} else if ri.body == "" {
+			// ri is still being built further up the stack: mutual recursion
+			fx.unsupportedf("spec rec %s: mutually recursive specs are not supported", sp.Name)
 		}
+		// a call to another, already defined recursive spec is an ordinary application
 		return sval{Term{app, ri.ret}, nil}
 	}
 	if fx.inQuant == 0 || !hasBoundVar(app) {
@@ -495,16 +484,22 @@ func recFrameFact(a, b recApp) (string, recApp, bool) {
 			continue
 		}
 		if a.args[k] != b.args[k] {
-			if f.lo == "" || a.args[k+1] != b.args[k+1] {
+			if a.args[k+1] != b.args[k+1] {
 				return "", recApp{}, false
 			}
 			args2[k] = b.args[k]
+			if f.lo == "" {
+				// no declared footprint: the rows must be equal (typically the same region in two memory versions)
+				agree = append(agree, fmt.Sprintf("(= %s %s)", a.args[k], b.args[k]))
+				k += 2
+				continue
+			}
 			lo := ri.inst(f.lo, a.args)
 			hi := ri.inst(f.hi, a.args)
 			agree = append(agree, fmt.Sprintf("(forall ((q_rf Int)) (=> (and (<= %s q_rf) (< q_rf %s)) (= (select %s (+ %s q_rf)) (select %s (+ %s q_rf)))))",
 				lo, hi, a.args[k], a.args[k+1], b.args[k], a.args[k+1]))
 		}
-		k += 3
+		k += 2
 	}
 	if len(agree) == 0 {
 		return "", recApp{}, false
